@@ -309,6 +309,8 @@ func execOp(op string) vlib.Res {
 		return execNss6(a)
 	case "cb":
 		return execCB(a)
+	case "qs":
+		return execQS(a)
 	}
 	if fc == nil {
 		return vlib.Res{Impl: "nocache"}
